@@ -102,6 +102,105 @@ theorem complete_delivery_finishes (c : Cfg F G) (ephs : List (List F)) (hw : We
     ∀ i, i < c.n → ∃ m d ks, (runEvents c ephs evs).ms[i]? = some m ∧ m.stage = .done d ks :=
   complete_finishes c ephs hw evs hcomp
 
+/-! ### the theorems above, stated directly over schedules
+
+`runEvents_sound` is the link between the event system and `HonestReach`: it is proved by the same
+induction over the schedule as liveness (`sysInv_step`: every message in flight in an honest group is
+genuine, so the stages only make `HonestReach` steps – `runDeals_reach`, `runResps_reach`).  The
+corollaries below no longer mention `HonestReach`. -/
+
+/-- **0. `runEvents_sound`.**  After ANY schedule `evs` – complete or not, any order, start skew,
+re-delivery – of a well-formed honest group, no member machine has failed, the generator of a member
+that is past `Deals()` is an `HonestReach` state, and a member in stage `done` holds exactly what
+`DistKeyShare()` returned on its generator: a `done` member of `runEvents` is a finisher in the sense
+of theorems 1–4. -/
+theorem runEvents_sound (c : Cfg F G) (ephs : List (List F)) (hw : WellFormed c ephs) (evs : List Ev)
+    (i : Nat) (m : Member F G) (hm : (runEvents c ephs evs).ms[i]? = some m) :
+    i < c.n ∧ (∀ why, m.stage ≠ .failed why) ∧
+    (∀ d, m.stage = .waitDeals d → HonestReach c i d) ∧ (∀ d, m.stage = .waitResps d → HonestReach c i d) ∧
+    (∀ d ks, m.stage = .done d ks → HonestReach c i d ∧ distKeyShare d = .ok ks) :=
+  Dkg.runEvents_sound c ephs hw evs i m hm
+
+/-- **4′. `run_schedule_independent`.**  The output of a member that is `done` after a schedule is a
+function of the dealers' polynomials alone. -/
+theorem run_schedule_independent (c : Cfg F G) (ephs : List (List F)) (hw : WellFormed c ephs) (evs : List Ev)
+    (i : Nat) (m : Member F G) (d : Gen F G) (ks : KeyShare F G)
+    (hm : (runEvents c ephs evs).ms[i]? = some m) (hs : m.stage = .done d ks) :
+    ks.commits = vecSum (c.polys.map (commit c.g)) ∧
+    ks.shareV = (c.polys.map (fun f => priEval f (i : Int))).sum ∧ ks.shareI = i := by
+  obtain ⟨hr, hk⟩ := (runEvents_sound c ephs hw evs i m hm).2.2.2.2 d ks hs
+  exact schedule_independent c hw.g_ne hw.nodup hw.polys_len i d ks hr hk
+
+/-- **1′. `run_agree`.**  Any two members that are `done` – after ANY two schedules `evs`, `evs'` of the
+group (the same one, or different ones, with different ephemeral randomness) – hold the same public
+polynomial and the same group public key. -/
+theorem run_agree (c : Cfg F G) (ephs ephs' : List (List F)) (hw : WellFormed c ephs) (hw' : WellFormed c ephs')
+    (evs evs' : List Ev) (i i' : Nat) (m m' : Member F G) (d d' : Gen F G) (ks ks' : KeyShare F G)
+    (hm : (runEvents c ephs evs).ms[i]? = some m) (hm' : (runEvents c ephs' evs').ms[i']? = some m')
+    (hs : m.stage = .done d ks) (hs' : m'.stage = .done d' ks') :
+    ks.commits = ks'.commits ∧ ks.commits.headD 0 = ks'.commits.headD 0 := by
+  rw [(run_schedule_independent c ephs hw evs i m d ks hm hs).1,
+    (run_schedule_independent c ephs' hw' evs' i' m' d' ks' hm' hs').1]
+  exact ⟨rfl, rfl⟩
+
+/-- **2′. `run_share_on_poly`.**  A `done` member's share is the summed polynomial at its own index, its
+public polynomial is the commitment of the summed polynomial, and the share verifies against it. -/
+theorem run_share_on_poly (c : Cfg F G) (ephs : List (List F)) (hw : WellFormed c ephs) (evs : List Ev)
+    (i : Nat) (m : Member F G) (d : Gen F G) (ks : KeyShare F G)
+    (hm : (runEvents c ephs evs).ms[i]? = some m) (hs : m.stage = .done d ks) :
+    ks.shareI = i ∧ ks.shareV = priEval (vecSum c.polys) (i : Int) ∧ ks.commits = commit c.g (vecSum c.polys) ∧
+    ks.shareV • c.g = pubEval (S := F) ks.commits (i : Int) := by
+  obtain ⟨hr, hk⟩ := (runEvents_sound c ephs hw evs i m hm).2.2.2.2 d ks hs
+  obtain ⟨h1, h2, h3⟩ := share_on_poly c hw.g_ne hw.nodup hw.polys_len (c.n / 2 + 1) hw.poly_len i d ks hr hk
+  exact ⟨(schedule_independent c hw.g_ne hw.nodup hw.polys_len i d ks hr hk).2.2, h1, h2, h3⟩
+
+/-- **3′. `run_reconstruct`.**  Take ANY slice of private shares in which every usable entry is the key
+share of a member that is `done` after the schedule, at least `t = n/2+1` are usable and the first `t`
+usable ones belong to distinct members: `share.RecoverSecret` returns the sum of the dealers' secrets,
+and the commitment of that sum is the group public key every `done` member holds. -/
+theorem run_reconstruct (c : Cfg F G) (ephs : List (List F)) (hw : WellFormed c ephs) (evs : List Ev)
+    (hc : Share.CharGt F c.n) (dp : Bool) (shares : List (Option (Share.PriShare F)))
+    (hval : ∀ iv ∈ shares.filterMap (Share.usablePri c.n), ∃ (k : Nat) (mk : Member F G) (d : Gen F G) (ks : KeyShare F G),
+      (k : Int) = iv.1 ∧ (runEvents c ephs evs).ms[k]? = some mk ∧ mk.stage = .done d ks ∧ ks.shareV = iv.2)
+    (hcnt : c.n / 2 + 1 ≤ (shares.filterMap (Share.usablePri c.n)).length)
+    (hdist : (((shares.filterMap (Share.usablePri c.n)).take (c.n / 2 + 1)).map (·.1)).Nodup)
+    (i : Nat) (m : Member F G) (d : Gen F G) (ks : KeyShare F G)
+    (hm : (runEvents c ephs evs).ms[i]? = some m) (hs : m.stage = .done d ks) :
+    Share.recoverSecret dp shares (c.n / 2 + 1) c.n = .ok ((c.polys.map (fun f => f.headD 0)).sum) ∧
+    (c.polys.map (fun f => f.headD 0)).sum • c.g = ks.commits.headD 0 := by
+  obtain ⟨hr, hk⟩ := (runEvents_sound c ephs hw evs i m hm).2.2.2.2 d ks hs
+  have hn0 : c.polys ≠ [] := by
+    intro h
+    have := hw.polys_len
+    rw [h] at this
+    have := hw.three
+    simp at *; omega
+  exact reconstruct c hw.g_ne hw.nodup hw.polys_len (c.n / 2 + 1) (by omega) hw.poly_len hn0 hc dp shares
+    (by
+      intro iv hiv
+      obtain ⟨k, mk, dk, ksk, h1, h2, h3, h4⟩ := hval iv hiv
+      obtain ⟨hrk, hkk⟩ := (runEvents_sound c ephs hw evs k mk h2).2.2.2.2 dk ksk h3
+      exact ⟨k, dk, ksk, h1, hrk, hkk, h4⟩)
+    hcnt hdist i d ks hr hk
+
+/-- **6. `honest_run_complete_and_agree`.**  For every well-formed honest configuration and EVERY
+schedule in which every member is started and every message that is sent is delivered to every other
+member at least once: every member ends `done`, all on ONE public polynomial – the commitment of the
+sum of the dealers' polynomials, whose constant coefficient (the group public key) is the commitment
+of the sum of the dealers' secrets – and member `i`'s share is that sum polynomial at `i` and verifies
+against the public polynomial. -/
+theorem honest_run_complete_and_agree (c : Cfg F G) (ephs : List (List F)) (hw : WellFormed c ephs)
+    (evs : List Ev) (hcomp : Complete c.n (runEvents c ephs evs)) :
+    (commit c.g (vecSum c.polys)).headD 0 = (c.polys.map (fun f => f.headD 0)).sum • c.g ∧
+    ∀ i, i < c.n → ∃ m d ks, (runEvents c ephs evs).ms[i]? = some m ∧ m.stage = .done d ks ∧
+      ks.commits = commit c.g (vecSum c.polys) ∧ ks.shareI = i ∧ ks.shareV = priEval (vecSum c.polys) (i : Int) ∧
+      ks.shareV • c.g = pubEval (S := F) ks.commits (i : Int) := by
+  refine ⟨by rw [headD_commit, headD_vecSum (c.n / 2 + 1) c.polys hw.poly_len], ?_⟩
+  intro i hi
+  obtain ⟨m, d, ks, hm, hs⟩ := complete_delivery_finishes c ephs hw evs hcomp i hi
+  obtain ⟨h1, h2, h3, h4⟩ := run_share_on_poly c ephs hw evs i m d ks hm hs
+  exact ⟨m, d, ks, hm, hs, h3, h1, h2, h4⟩
+
 /-- **5a. the session layer alone**, for ANY message kind with de-duplication by a key: if the request
 for `|K|` messages is registered once and a message of every key of `K` arrives at least once – before
 or after the registration, in any order, any number of times – `Loop` hands the waiting stage exactly
@@ -143,6 +242,14 @@ example : exCfg.g ≠ 0 ∧ 3 ≤ exCfg.n ∧ exEphs.length = exCfg.n ∧ ∀ es
   decide +kernel
 example : (runEvents exCfg exEphs exSched).ms.map (fun m => match m.stage with | .done _ _ => true | _ => false)
     = [true, true, true] := by decide +kernel
+-- 0, 1′–4′, 6: the hypotheses are satisfiable – the configuration is well formed, the schedule complete
+theorem exWellFormed : WellFormed exCfg exEphs :=
+  ⟨by decide +kernel, by decide +kernel, by decide +kernel, by decide +kernel, by decide +kernel, by decide +kernel,
+    by decide +kernel⟩
+/-- a schedule that stops half way (member 2 never receives the responses): nobody has failed, members 0, 1 are done -/
+def exPartial : List Ev := exSched.filter (fun e => match e with | .resps _ 2 => false | _ => true)
+example : (runEvents exCfg exEphs exPartial).ms.map (fun m => match m.stage with
+    | .done _ _ => "D" | .waitResps _ => "r" | .failed _ => "F" | _ => "?") = ["D", "D", "r"] := by decide +kernel
 end Examples
 
 end Dos.Props.C04
